@@ -39,8 +39,8 @@ Well-formed domains. A forest is excluded only by one of these syntactic rules, 
   huawei, h3c  no row begins with end-list / endif / end-filter (device block terminators, not rows).
   iosxr        no row ends with end-set / endif / end-policy (same reason).
   juniper, ribbon   rows contain none of `{ } ; #`; an annotation row `/* {"row":..,"comment":..} */` names its
-               next sibling (quotes stripped from each word), is not at top level, is followed by a sibling and has
-               no children.
+               next sibling (quotes stripped from each word; the empty row when it is the last statement of its
+               block), is not at top level and has no children.
   nokia        rows contain none of `{ } ; #`; `configure` is not a top-level row (there it is the wrapper that
                NokiaFormatter.split removes by design).
   routeros     a row has children iff it is a section word; every top-level row is a section; leaf rows are
